@@ -507,6 +507,11 @@ enum C09Layout {
     SameComment,
     /// `/* <block …> *//* </block> */`: adjacent comments, empty content.
     Adjacent,
+    /// Start tag on its own line; the end tag's comment shares the line of the last content line
+    /// (`last; // </block>`): the content does not end with a newline.
+    EndShared,
+    /// Everything on one line: `/* <block …> */ x; /* </block> */`.
+    OneLine,
 }
 
 fn c09_valid(seq: &[u8]) -> bool {
@@ -531,8 +536,14 @@ fn c09_check(seq: &[u8], sink: &Sink) {
         return;
     }
     let lines = seq_lines(C09_LINES, seq);
+    // A `//` comment or a nested `//` tag line cannot be followed by another comment on its line.
+    let last_is_code = seq.last().is_some_and(|&s| s == 0 || s == 3);
     let layouts: &[C09Layout] = if seq.is_empty() {
         &[C09Layout::OwnLine, C09Layout::SameLine, C09Layout::SameComment, C09Layout::Adjacent]
+    } else if seq.len() == 1 && last_is_code {
+        &[C09Layout::OwnLine, C09Layout::SameLine, C09Layout::EndShared, C09Layout::OneLine]
+    } else if last_is_code {
+        &[C09Layout::OwnLine, C09Layout::SameLine, C09Layout::EndShared]
     } else {
         &[C09Layout::OwnLine, C09Layout::SameLine]
     };
@@ -545,6 +556,8 @@ fn c09_check(seq: &[u8], sink: &Sink) {
             C09Layout::OwnLine => format!("\n{}", lines.iter().map(|l| format!("{l}\n")).collect::<String>()),
             C09Layout::SameLine => format!(" {}", lines.iter().map(|l| format!("{l}\n")).collect::<String>()),
             C09Layout::SameComment | C09Layout::Adjacent => String::new(),
+            C09Layout::EndShared => format!("\n{} ", lines.join("\n")),
+            C09Layout::OneLine => format!(" {} ", lines[0]),
         };
         let actual = content.split('\n').filter(|l| !is_blank(l)).count();
         let mut text = String::new();
@@ -561,6 +574,8 @@ fn c09_check(seq: &[u8], sink: &Sink) {
                         C09Layout::SameLine => format!("/* {tag} */{content}/* </block> */\n"),
                         C09Layout::SameComment => format!("/* {tag} </block> */\n"),
                         C09Layout::Adjacent => format!("/* {tag} *//* </block> */\n"),
+                        C09Layout::EndShared => format!("// {tag}{content}// </block>\n"),
+                        C09Layout::OneLine => format!("/* {tag} */{content}/* </block> */\n"),
                     };
                     tag_lines.push((line_no, op, n));
                     expected.push((line_no, op.to_string(), n, !f(actual, n)));
@@ -610,7 +625,7 @@ fn c09_check(seq: &[u8], sink: &Sink) {
 }
 
 pub fn run_c09(cfg: &Cfg, sink: &Arc<Sink>) -> Report {
-    let mut report = Report::new("states = sequences of content lines over {statement, blank, whitespace-only, indented statement, comment, nested start tag, nested end tag} (unbalanced nestings are not inputs of this property and are skipped); each state is rendered in every applicable layout {tag on its own line, content starting on the tag's line, both tags in one comment, adjacent comments} into a JavaScript file holding the full grid 5 operators × 3 spacings × N 0..7 (120 blocks), validated by the real code; non-trivial = every rendered state");
+    let mut report = Report::new("states = sequences of content lines over {statement, blank, whitespace-only, indented statement, comment, nested start tag, nested end tag} (unbalanced nestings are not inputs of this property and are skipped); each state is rendered in every applicable layout {tag on its own line, content starting on the tag's line, end tag sharing the last content line, everything on one line, both tags in one comment, adjacent comments} into a JavaScript file holding the full grid 5 operators × 3 spacings × N 0..7 (120 blocks), validated by the real code; non-trivial = every rendered state");
     report.assume("the count of non-blank lines is taken over the text between the two tag comments, which the construction knows");
     let depth = cfg.tier.pick(5, 7);
     let bound = format!("all sequences of ≤{depth} content lines over a 7-line alphabet × ≤4 layouts × full (op, spacing, N) grid");
